@@ -682,7 +682,13 @@ func collOf(asNil bool, items []any) system.Collection {
 
 // fhirTemporalEqual compares two FHIR/FHIRPath temporal strings as
 // (instant, precision, offset) at millisecond granularity; Z ≡ +00:00.
-func temporalEqual(a, b string, isTime bool) (bool, string) {
+func temporalEqual(a, b string, isTime bool) (bool, string) { return temporalEqualP(a, b, isTime, 6) }
+
+// temporalEqualSys: for System values seconds and fractions are one precision (a
+// second-precision layout prints no fraction when it is zero).
+func temporalEqualSys(a, b string, isTime bool) (bool, string) { return temporalEqualP(a, b, isTime, 5) }
+
+func temporalEqualP(a, b string, isTime bool, finest int) (bool, string) {
 	pa, ea := parseAnyTemporal(a, isTime)
 	pb, eb := parseAnyTemporal(b, isTime)
 	if ea != nil || eb != nil {
@@ -690,7 +696,7 @@ func temporalEqual(a, b string, isTime bool) (bool, string) {
 	}
 	if pa.prec != pb.prec {
 		// fraction digits beyond milliseconds are not representable in System values
-		if !(pa.prec >= 6 && pb.prec >= 6) {
+		if !(pa.prec >= finest && pb.prec >= finest) {
 			return false, fmt.Sprintf("precision differs (want %s got %s)", precName(pa), precName(pb))
 		}
 	}
